@@ -161,7 +161,7 @@ func (s *Service) OnExecute(ctx context.Context, senderID uint64, account string
 			if err != nil {
 				return errors.Wrap(err, "failed to send contribution")
 			}
-			if !verifyContribution(generation.id, recipientSecret, recipientVVec) {
+			if len(recipientVVec) != int(generation.threshold) || !verifyContribution(generation.id, recipientSecret, recipientVVec) {
 				log.Warn().Msg("Contribution invalid")
 				return fmt.Errorf("invalid contribution from %d", id)
 			}
@@ -296,7 +296,8 @@ func (s *Service) OnContribute(ctx context.Context,
 		return bls.SecretKey{}, nil, err
 	}
 
-	if !verifyContribution(generation.id, secret, vVec) {
+	// The verification vector must have exactly one entry per coefficient of the threshold polynomial.
+	if len(vVec) != int(generation.threshold) || !verifyContribution(generation.id, secret, vVec) {
 		log.Warn().Uint64("sender", senderID).Str("account", account).Msg("Received invalid contribution")
 		return bls.SecretKey{}, nil, fmt.Errorf("invalid contribution from %d", senderID)
 	}
